@@ -281,6 +281,11 @@ void Server::Private::run()
         deleteClient(client);
     }
 
+    // onClosed may have created a timer that is due before the timeout computed above
+    timeout = _queuedTimers.begin().key() - now;
+    if (timeout < 0)
+      timeout = 0;
+
     if (!_sockets.poll(pollEvent, timeout))
       break;
 
